@@ -667,7 +667,9 @@ template<typename F> struct Program {
     {
       const Arena* ax = home(x); const Arena* ay = home(y);
       TrafficSnap snap;
+      c19ctx().forbidden = ax != ay ? ay : nullptr;
       { LibScope ls("merge-const-ref"); F::merge_ref(x->o(), y->co(), cfg); }
+      c19ctx().forbidden = nullptr;
       if (ax != ay) {
         const uint64_t al = snap.allocs(ay), de = snap.deallocs(ay);
         checked();
@@ -686,7 +688,9 @@ template<typename F> struct Program {
     {
       const Arena* ax = home(x); const Arena* ay = home(y);
       TrafficSnap snap;
+      c19ctx().forbidden = ax != ay ? ay : nullptr;
       { LibScope ls("merge-by-move"); F::merge_move(x->o(), std::move(y->o()), cfg); }
+      c19ctx().forbidden = nullptr;
       if (ax != ay) {
         const uint64_t al = snap.allocs(ay);
         checked();
